@@ -102,12 +102,17 @@ REG.contract(
 )
 
 # ----------------------------------------------------------------------------- async twin
-REG.declare_class("dns._asyncbackend.StreamSocket", ghost_stream=T.bytes)
+# ghost_deadline: the absolute deadline the caller is working against (None: no deadline)
+REG.declare_class("dns._asyncbackend.StreamSocket", ghost_stream=T.bytes, ghost_deadline=T.opt(T.real))
 ASOCK = T.obj("dns._asyncbackend.StreamSocket")
 
 REG.contract(
     "dns._asyncbackend.StreamSocket.recv",
     params={"self": ASOCK, "size": T.int, "timeout": T.opt(T.real)},
+    # each wait is bounded by what is left of the deadline at the moment it starts (time_last: the caller's latest clock
+    # reading); while the call waits the clock moves on (clock_reads=1)
+    requires=["(self.ghost_deadline is None) or ((timeout is not None) and timeout <= (self.ghost_deadline - time_last if self.ghost_deadline - time_last > 0 else 0))"],
+    clock_reads=1,
     raises=[("dns.exception.Timeout", "True", "may")],
     returns=T.bytes,
     modifies={"self.ghost_stream": T.bytes},
@@ -123,6 +128,7 @@ REG.contract(
 REG.contract(
     "dns.asyncquery._read_exactly",
     params={"sock": ASOCK, "count": T.nat, "expiration": T.opt(T.real)},
+    requires=["(sock.ghost_deadline is None) == (expiration is None)", "(expiration is None) or sock.ghost_deadline == expiration"],
     raises=[("builtins.EOFError", "True", "may"), ("dns.exception.Timeout", "True", "may")],
     returns=T.bytes,
     loops={0: loop(invariant=[
@@ -133,7 +139,8 @@ REG.contract(
     ensures=["len(result) == old_count", "result == old_sock.ghost_stream[:old_count]",
              "sock.ghost_stream == old_sock.ghost_stream[old_count:]"],
     props=["C18"],
-    note="the asyncio/trio twin of _net_read satisfies the same contract ('await e' is read as 'e')",
+    note="the asyncio/trio twin of _net_read satisfies the same contract ('await e' is read as 'e'); every recv is given a "
+         "timeout recomputed from the current clock, so the total wait never exceeds the deadline",
 )
 
 
